@@ -358,6 +358,16 @@ int SDsetchunk(int32 sdsid, HDF_CHUNK_DEF chunk_def, int32 flags)
                            ? (g_hmc_flag == SPECIAL_COMP && g_hmc_coder == COMP_CODE_NBIT)
                            : (g_hmc_flag == SPECIAL_COMP && g_hmc_coder == (int)chunk_def.comp.comp_type)));
 
+/* ---------------------------------------------------------------- SDgetdimscale (C10: dimension scales)
+   ASSUMED (replaced inside SDgetdimscale, body not verified here): the coordinate variable of the dimension is the variable with index
+   g_cv, or the lookup fails; no variable is created on this path (nt == 0) */
+NC_dim *g_dim;
+int     g_cv;
+int32 SDIgetcoordvar(NC *handle, NC_dim *dim, int32 id, int32 nt)
+    __CPROVER_requires(handle == g_handle && dim == g_dim && nt == 0)
+    __CPROVER_assigns()
+    __CPROVER_ensures(__CPROVER_return_value == FAIL || __CPROVER_return_value == g_cv);
+
 #ifdef H4V_NATIVE
 #include "h4v_native_wrap.h"
 #endif
@@ -617,4 +627,47 @@ h_SDsetchunk(void)
     H4V_COVER(r == SUCCEED && g_var != NULL && (int)g_var->assoc->count == MAXR, "full rank");
     H4V_COVER(r == FAIL && g_hmc_calls == 1, "HMCcreate / Hendaccess failure");
     H4V_CANARY("SDsetchunk end");
+}
+
+
+/* SDgetdimscale: the scale of a dimension is read from its coordinate variable, from the start, with as many values as the dimension
+   is long -- for an unlimited dimension as many as THAT variable has records (not as many as the longest record variable of the file) */
+void
+h_SDgetdimscale(void)
+{
+    static NC_dim   s_dim;
+    static NC_dim  *s_dimtab[1];
+    static NC_array s_dims;
+    int nvars = mk_file(1);
+    H4V_ND(long, dim_size);
+    H4V_ND(int, cv);
+    H4V_ND(int32, id);
+    H4V_ASSUME(dim_size >= 0 && dim_size <= 2147483647L && cv >= 0 && cv < nvars);
+    H4V_ASSUME(((id >> 16) & 0x0f) == DIMTYPE && (id & 0xffff) == 0);
+    s_dim.size    = dim_size;
+    s_dimtab[0]   = &s_dim;
+    s_dims.count  = 1;
+    s_dims.values = (uint8_t *)s_dimtab;
+    s_nc.dims     = &s_dims;
+    g_dim         = &s_dim;
+    g_cv          = cv;
+    g_varid       = cv;
+    g_var         = s_tab[cv];
+    g_is_read     = 1;
+    g_d           = 0; /* a coordinate variable has one dimension: log its start / count */
+    H4V_ASSUME(g_var->assoc->count >= 1);
+    H4V_ND_BUF(h4v_uchar, data, 8, 8);
+    g_data = data;
+    long v_recs = (long)g_var->numrecs;
+    int  r      = SDgetdimscale(id, data);
+    H4V_CHECK(r == SUCCEED || r == FAIL, "SUCCEED or FAIL");
+    H4V_CHECK(r != SUCCEED || (g_io_calls == 1 && g_io_ok && g_route == R_VARIO && g_io_ret == 0),
+              "SDgetdimscale reads through NCvario: this file, the coordinate variable, the caller's buffer, decoding");
+    H4V_CHECK(r != SUCCEED || (g_lg_start == 0 && g_lg_edge == (dim_size != 0 ? dim_size : v_recs)),
+              "C10 the scale has as many values as the dimension is long (unlimited: as the coordinate variable has records)");
+    H4V_CHECK(!(g_io_calls == 1 && g_io_ret != 0) || r == FAIL, "an I/O failure is reported");
+    H4V_COVER(r == SUCCEED && dim_size == 0 && v_recs != (long)s_nc.numrecs, "getdimscale: unlimited dimension shorter than the file's longest");
+    H4V_COVER(r == SUCCEED && dim_size > 0, "getdimscale: fixed dimension");
+    H4V_COVER(r == FAIL && g_io_calls == 0, "getdimscale: refused before I/O");
+    H4V_CANARY("SDgetdimscale end");
 }
